@@ -29,6 +29,13 @@ Qed.
 Lemma new_file_view : forall P x b, fview P (new_file P x b) [] [].
 Proof. intros. constructor; cbn; try reflexivity; try constructor. lia. Qed.
 
+(* a file without dead rows: every written slot is live *)
+Lemma view_all_live : forall P f A, fview P f A [] -> all_live f.
+Proof.
+  intros P f A V. unfold all_live. rewrite (fv_rows P f A [] V), forallb_rev, app_nil_r.
+  eapply Forall_good_live. exact (fv_good _ _ _ _ V).
+Qed.
+
 (* the state inside the append loop: the current file is (A, D), [off] is where the next payload goes *)
 Definition linv (P : params) (i0 : N) (d : disk) (A D : list row) (off : N) : Prop :=
   1 <= i0 /\ chain P i0 (d_files d) /\ fview P (d_cur d) A D
@@ -43,12 +50,13 @@ Lemma append_loop_inv : forall P, wf_params P = true -> forall es off d i0 A D,
   (es = [] -> D = [] /\ (A = [] -> d_files d = [])) ->
   exists Ac', dinv P i0 (append_loop P es off d) Ac'
               /\ log_of (append_loop P es off d) = concat (map file_entries (d_files d)) ++ map row_entry A ++ es
-              /\ d_meta (append_loop P es off d) = d_meta d.
+              /\ d_meta (append_loop P es off d) = d_meta d
+              /\ (D = [] -> Forall all_live (d_files d) -> Forall all_live (d_files (append_loop P es off d))).
 Proof.
   intros P HP. destruct (wf_params_facts P HP) as (Hmax & Hoffp & Hsz).
   induction es as [|e r IH]; intros off d i0 A D L C Hnz Hfit Hend.
   - destruct L as (H1 & Hch & V & Cc & Hn & Hoff & Hlt & Hnil & HD). destruct (Hend eq_refl) as [-> HA].
-    cbn [append_loop]. exists A. split; [|split; [|reflexivity]].
+    cbn [append_loop]. exists A. split; [|split; [|split; [reflexivity|auto]]].
     + unfold dinv. auto 10.
     + rewrite log_of_eq, (fv_entries P (d_cur d) A [] V), app_nil_r. reflexivity.
   - destruct L as (H1 & Hch & V & Cc & Hn & Hoff & Hlt & Hnil & HD).
@@ -79,12 +87,14 @@ Proof.
         split; [cbn [map consec]; rewrite row_entry_new; split; [lia|exact Logic.I]|].
         split; [reflexivity|]. split; [lia|].
         split; [intros x [<-|[]]; cbn; lia|]. split; [discriminate|]. cbn. lia. }
-      destruct (IH (data_off P + 4 + p_len (e_data e)) d2 i0 [new_row (data_off P) e] [] L2) as (Ac' & I' & Lg & Mt); auto.
+      destruct (IH (data_off P + 4 + p_len (e_data e)) d2 i0 [new_row (data_off P) e] [] L2) as (Ac' & I' & Lg & Mt & Al); auto.
       * unfold d2. cbn [d_files length]. rewrite Hflen. replace (i0 + (flen (d_files d) + N.of_nat (length A)) + N.of_nat 1) with (i0 + flen (d_files d) + N.of_nat (length A) + 1) by lia. exact Cr.
       * intros _. split; [reflexivity|discriminate].
-      * exists Ac'. split; [exact I'|]. split; [|exact Mt].
-        rewrite Lg. unfold d2. cbn [d_files map]. rewrite row_entry_new, map_app, concat_app. cbn [map concat].
-        rewrite (fv_entries P c' A D Vc'), app_nil_r, <- !app_assoc. reflexivity.
+      * exists Ac'. split; [exact I'|]. split; [|split; [exact Mt|]].
+        -- rewrite Lg. unfold d2. cbn [d_files map]. rewrite row_entry_new, map_app, concat_app. cbn [map concat].
+           rewrite (fv_entries P c' A D Vc'), app_nil_r, <- !app_assoc. reflexivity.
+        -- intros ED Hal. apply Al; [reflexivity|]. unfold d2. cbn [d_files]. apply Forall_app. split; [exact Hal|].
+           constructor; [|constructor]. subst D. exact (view_all_live P c' A Vc').
     + (* write into the current file *)
       apply orb_false_iff in Erot as [E1 E2].
       destruct (write_row_view P (d_cur d) A D off e V He Hoff Hlt) as (Vw & _ & _).
@@ -98,12 +108,13 @@ Proof.
         split; [rewrite app_length; cbn [length]; lia|]. split; [lia|].
         split; [intros x Hx; apply in_app_or in Hx as [Hx|[<-|[]]]; [specialize (Hlt x Hx); lia|cbn; lia]|].
         split; [intro E; destruct A; discriminate|]. destruct D as [|? [|? ?]]; cbn in *; lia. }
-      destruct (IH (off + 4 + p_len (e_data e)) d2 i0 (A ++ [new_row off e]) (tl D) L2) as (Ac' & I' & Lg & Mt); auto.
+      destruct (IH (off + 4 + p_len (e_data e)) d2 i0 (A ++ [new_row off e]) (tl D) L2) as (Ac' & I' & Lg & Mt & Al); auto.
       * unfold d2. cbn [d_files]. rewrite app_length. cbn [length].
         replace (i0 + flen (d_files d) + N.of_nat (length A + 1)) with (i0 + flen (d_files d) + N.of_nat (length A) + 1) by lia. exact Cr.
       * intros _. split; [destruct D as [|? [|? ?]]; cbn in *; [reflexivity|reflexivity|lia]|intro E; destruct A; discriminate].
-      * exists Ac'. split; [exact I'|]. split; [|exact Mt].
-        rewrite Lg. unfold d2. cbn [d_files]. rewrite map_app. cbn [map]. rewrite row_entry_new, <- !app_assoc. reflexivity.
+      * exists Ac'. split; [exact I'|]. split; [|split; [exact Mt|]].
+        -- rewrite Lg. unfold d2. cbn [d_files]. rewrite map_app. cbn [map]. rewrite row_entry_new, <- !app_assoc. reflexivity.
+        -- intros ED Hal. apply Al; [subst D; reflexivity|exact Hal].
 Qed.
 
 (* ---- from the conflict handling to the loop ---- *)
@@ -145,7 +156,8 @@ Lemma after_conflict_inv : forall P, wf_params P = true -> forall e r d1 i0 A D,
   exists Ac', dinv P i0 (after_conflict P (e :: r) d1) Ac'
               /\ log_of (after_conflict P (e :: r) d1)
                  = concat (map file_entries (d_files d1)) ++ map row_entry A ++ e :: r
-              /\ d_meta (after_conflict P (e :: r) d1) = d_meta d1.
+              /\ d_meta (after_conflict P (e :: r) d1) = d_meta d1
+              /\ (D = [] -> Forall all_live (d_files d1) -> Forall all_live (d_files (after_conflict P (e :: r) d1))).
 Proof.
   intros P HP e r d1 i0 A D H1 Hch V C Hn HD Ces Hnz Hfit.
   destruct (wf_params_facts P HP) as (Hmax & Hoffp & Hsz).
@@ -184,42 +196,50 @@ Qed.
 Lemma consec_firstn_rows : forall A i k, consec i (map row_entry A) -> consec i (map row_entry (firstn k A)).
 Proof. intros A i k H. rewrite <- firstn_map. now apply consec_firstn. Qed.
 
-Lemma add_entries_eq : forall P e0 r d,
-  add_entries VRepaired P (e0 :: r) d
-  = after_conflict P (e0 :: r)
-      (match slot_ge P d (e_index e0) with
-       | (_, None) => d
-       | (InCur, Some lo) =>
-           if lo <? d_next d
-           then mkdisk (d_files d) (zero_fill VRepaired P (entry_sz * d_next d) lo (d_cur d)) lo (d_meta d)
-           else mkdisk (d_files d) (d_cur d) lo (d_meta d)
-       | (InOld k, Some lo) =>
-           mkdisk (firstn k (d_files d)) (zero_fill VRepaired P (data_off P) lo (nth k (d_files d) (d_cur d))) lo (d_meta d)
-       end).
+Lemma add_entries_eq : forall v P e0 r d,
+  add_entries v P (e0 :: r) d = after_conflict P (e0 :: r) (conflict_step v P (e_index e0) d).
 Proof. reflexivity. Qed.
 
-Lemma add_entries_inv : forall P, wf_params P = true -> forall d i0 Ac e0 r,
+(* what the refinement needs of the way a variant clears the slot records [lo, hi) of a file: the live rows below lo
+   stay, nothing above them is live, at most one dead slot (the prefix slot of the WriteSlice variants) remains *)
+Definition clears (v : variant) (P : params) (nodead : bool) : Prop :=
+  forall endb hi lo f A D, fview P f A D -> (lo < length A)%nat ->
+    entry_sz * f_n f <= endb -> endb <= data_off P -> f_n f <= hi ->
+    exists D', (length D' <= 1)%nat /\ (nodead = true -> D' = [])
+               /\ fview P (clear_slots v P endb hi (N.of_nat lo) f) (firstn lo A) D'.
+
+Lemma clears_repaired : forall P, clears VRepaired P false.
+Proof.
+  intros P endb hi lo f A D V Hlo He1 He2 _. cbn [clear_slots].
+  destruct (zero_fill_view P endb lo f A D V Hlo He1 He2) as (Vz & _ & _). eexists. split; [|split; [discriminate|exact Vz]]. cbn. lia.
+Qed.
+
+Lemma Forall_firstn_any : forall {T} (Q : T -> Prop) k l, Forall Q l -> Forall Q (firstn k l).
+Proof. intros T Q k l H. revert k. induction H as [|x r Hx Hr IH]; intro k; destruct k; cbn [firstn]; auto. Qed.
+
+Lemma add_entries_inv : forall v P nd, wf_params P = true -> clears v P nd -> forall d i0 Ac e0 r,
   dinv P i0 d Ac ->
   consec (e_index e0) (e0 :: r) -> 1 <= e_index e0 -> Forall (fits P) (e0 :: r) ->
   (log_of d = [] \/ (first_of (log_of d) <= e_index e0 /\ e_index e0 <= last_of (log_of d) + 1)) ->
-  exists i0' Ac', dinv P i0' (add_entries VRepaired P (e0 :: r) d) Ac'
-                  /\ log_of (add_entries VRepaired P (e0 :: r) d) = s_append (e0 :: r) (log_of d)
-                  /\ d_meta (add_entries VRepaired P (e0 :: r) d) = d_meta d.
+  exists i0' Ac', dinv P i0' (add_entries v P (e0 :: r) d) Ac'
+                  /\ log_of (add_entries v P (e0 :: r) d) = s_append (e0 :: r) (log_of d)
+                  /\ d_meta (add_entries v P (e0 :: r) d) = d_meta d
+                  /\ (nd = true -> Forall all_live (d_files d) -> Forall all_live (d_files (add_entries v P (e0 :: r) d))).
 Proof.
-  intros P HP d i0 Ac e0 r I Ces Hb Hfit Hrange.
+  intros v P nd HP Hclr d i0 Ac e0 r I Ces Hb Hfit Hrange.
   destruct (wf_params_facts P HP) as (Hmax & Hoffp & Hsz). unfold entry_sz in Hoffp.
   pose proof I as (H1 & Hch & V & C & Hn & He).
   pose proof (consec_nz _ _ Ces Hb) as Hnz.
   set (b := e_index e0) in *.
-  rewrite add_entries_eq. fold b. cbn [s_append]. fold b.
+  rewrite add_entries_eq. fold b. unfold conflict_step. cbn [s_append]. fold b.
   destruct (nil_or_not Ac) as [EA|EA].
   - (* empty log *)
     assert (Hl : log_of d = []) by (rewrite (inv_log P d i0 Ac I), (He EA), EA; reflexivity).
     rewrite (slot_ge_empty P d i0 Ac I EA b), Hl.
     subst Ac. pose proof (dinv_empty_any P i0 d I b Hb) as (_ & Hch' & V' & _ & Hn' & He').
-    destruct (after_conflict_inv P HP e0 r d b [] [] Hb Hch' V' Logic.I Hn' ltac:(cbn; lia)) as (Ac' & I' & L' & M'); auto.
+    destruct (after_conflict_inv P HP e0 r d b [] [] Hb Hch' V' Logic.I Hn' ltac:(cbn; lia)) as (Ac' & I' & L' & M' & N'); auto.
     { rewrite (He eq_refl), flen_nil. cbn [length N.of_nat]. now rewrite !N.add_0_r. }
-    exists b, Ac'. split; [exact I'|]. split; [|exact M'].
+    exists b, Ac'. split; [exact I'|]. split; [|split; [exact M'|intros _ Hal; now apply N']].
     rewrite L', (He eq_refl). cbn. now destruct (N.to_nat _).
   - assert (Hne : log_of d <> []).
     { rewrite (inv_log P d i0 Ac I). destruct Ac; [congruence|]. intro X. apply app_eq_nil in X as [_ X]. discriminate. }
@@ -246,15 +266,16 @@ Proof.
       rewrite app_nth2 by lia. rewrite Nat.sub_diag. cbn [nth].
       set (lo := N.to_nat (b - fi)). assert (Hlo' : b - fi = N.of_nat lo) by (unfold lo; lia). rewrite Hlo'.
       pose proof (fv_max _ _ _ _ Vf) as Hfm.
-      destruct (zero_fill_view P (data_off P) lo f A D Vf ltac:(unfold lo; lia) ltac:(unfold entry_sz; lia) ltac:(lia))
-        as (Vz & _ & _).
-      set (d1 := mkdisk pre (zero_fill VRepaired P (data_off P) (N.of_nat lo) f) (N.of_nat lo) (d_meta d)).
+      destruct (Hclr (data_off P) (max_entries P) lo f A D Vf ltac:(unfold lo; lia) ltac:(unfold entry_sz; lia) ltac:(lia) Hfm)
+        as (Dz & HDz & HDn & Vz).
+      set (d1 := mkdisk pre (clear_slots v P (data_off P) (max_entries P) (N.of_nat lo) f) (N.of_nat lo) (d_meta d)).
       assert (Hlen : length (firstn lo A) = lo) by (apply firstn_length_le; unfold lo; lia).
-      destruct (after_conflict_inv P HP e0 r d1 i0 (firstn lo A) _ H1 Hpre Vz) as (Ac' & I' & L' & M'); auto.
+      destruct (after_conflict_inv P HP e0 r d1 i0 (firstn lo A) _ H1 Hpre Vz) as (Ac' & I' & L' & M' & N'); auto.
       * cbn [d_files d1]. fold fi. now apply consec_firstn_rows.
       * cbn [d_next d1]. now rewrite Hlen.
       * cbn [d_files d1]. rewrite Hlen. fold fi. replace (fi + N.of_nat lo) with b by lia. exact Ces.
-      * exists i0, Ac'. split; [exact I'|]. split; [|exact M'].
+      * exists i0, Ac'. split; [exact I'|]. split; [|split; [exact M'|]].
+        2:{ intros End Hal. apply N'; [now apply HDn|]. cbn [d_files d1]. try rewrite Hfs in Hal. apply Forall_app in Hal. tauto. }
         rewrite L'. cbn [d_files d1]. rewrite (inv_log P d i0 Ac I), Hfs, map_app, concat_app. cbn [map concat].
         rewrite (fv_entries P f A D Vf), <- !app_assoc.
         replace (N.to_nat (b - i0)) with (length (concat (map file_entries pre)) + lo)%nat
@@ -268,15 +289,16 @@ Proof.
         set (lo := N.to_nat (b - c0)). assert (Hlo' : b - c0 = N.of_nat lo) by (unfold lo; lia). rewrite Hlo'.
         rewrite Hn. destruct (N.of_nat lo <? N.of_nat (length Ac)) eqn:E3; [|lia].
         pose proof (fv_n _ _ _ _ V) as Hfn. rewrite app_nil_r in Hfn. pose proof (fv_max _ _ _ _ V) as Hfm.
-        destruct (zero_fill_view P (entry_sz * N.of_nat (length Ac)) lo (d_cur d) Ac [] V ltac:(unfold lo; lia)
-                    ltac:(rewrite Hfn; lia) ltac:(unfold entry_sz; lia)) as (Vz & _ & _).
-        set (d1 := mkdisk (d_files d) (zero_fill VRepaired P (entry_sz * N.of_nat (length Ac)) (N.of_nat lo) (d_cur d)) (N.of_nat lo) (d_meta d)).
+        destruct (Hclr (entry_sz * N.of_nat (length Ac)) (N.of_nat (length Ac)) lo (d_cur d) Ac [] V ltac:(unfold lo; lia)
+                    ltac:(rewrite Hfn; lia) ltac:(unfold entry_sz; lia) ltac:(rewrite Hfn; lia)) as (Dz & HDz & HDn & Vz).
+        set (d1 := mkdisk (d_files d) (clear_slots v P (entry_sz * N.of_nat (length Ac)) (N.of_nat (length Ac)) (N.of_nat lo) (d_cur d)) (N.of_nat lo) (d_meta d)).
         assert (Hlen : length (firstn lo Ac) = lo) by (apply firstn_length_le; unfold lo; lia).
-        destruct (after_conflict_inv P HP e0 r d1 i0 (firstn lo Ac) _ H1 Hch Vz) as (Ac' & I' & L' & M'); auto.
+        destruct (after_conflict_inv P HP e0 r d1 i0 (firstn lo Ac) _ H1 Hch Vz) as (Ac' & I' & L' & M' & N'); auto.
         -- cbn [d_files d1]. now apply consec_firstn_rows.
         -- cbn [d_next d1]. now rewrite Hlen.
         -- cbn [d_files d1]. rewrite Hlen. fold c0. replace (c0 + N.of_nat lo) with b by lia. exact Ces.
-        -- exists i0, Ac'. split; [exact I'|]. split; [|exact M'].
+        -- exists i0, Ac'. split; [exact I'|]. split; [|split; [exact M'|]].
+           2:{ intros End Hal. apply N'; [now apply HDn|exact Hal]. }
            rewrite L'. cbn [d_files d1]. rewrite (inv_log P d i0 Ac I).
            replace (N.to_nat (b - i0)) with (length (concat (map file_entries (d_files d))) + lo)%nat
              by (rewrite Hlp; unfold lo, c0; lia).
@@ -285,9 +307,10 @@ Proof.
         rewrite (slot_ge_cur_beyond P d i0 Ac I b EA) by (fold c0; lia).
         rewrite Hn, N.ltb_irrefl.
         set (d1 := mkdisk (d_files d) (d_cur d) (N.of_nat (length Ac)) (d_meta d)).
-        destruct (after_conflict_inv P HP e0 r d1 i0 Ac [] H1 Hch V C eq_refl ltac:(cbn; lia)) as (Ac' & I' & L' & M'); auto.
+        destruct (after_conflict_inv P HP e0 r d1 i0 Ac [] H1 Hch V C eq_refl ltac:(cbn; lia)) as (Ac' & I' & L' & M' & N'); auto.
         -- cbn [d_files d1]. fold c0. replace (c0 + N.of_nat (length Ac)) with b by lia. exact Ces.
-        -- exists i0, Ac'. split; [exact I'|]. split; [|exact M'].
+        -- exists i0, Ac'. split; [exact I'|]. split; [|split; [exact M'|]].
+           2:{ intros _ Hal. now apply N'. }
            rewrite L'. cbn [d_files d1]. rewrite firstn_all2.
            ++ rewrite (inv_log P d i0 Ac I), <- app_assoc. reflexivity.
            ++ pose proof (inv_len P d i0 Ac I). unfold c0 in *. lia.
@@ -303,7 +326,8 @@ Proof.
   { destruct es as [|e0 r].
     - exists i0, Ac. cbn [add_entries s_append]. auto.
     - cbn [valid_op] in Hv. destruct Hv as (Ces & Hb & Hfit & Hrange). change (a_ents (abs d)) with (log_of d) in Hrange.
-      now apply (add_entries_inv P HP d i0 Ac e0 r). }
+      destruct (add_entries_inv VRepaired P false HP (clears_repaired P) d i0 Ac e0 r I Ces Hb Hfit Hrange) as (a & b & X1 & X2 & X3 & _).
+      eauto. }
   destruct H as (i0' & Ac' & I' & L' & M').
   set (d1 := add_entries VRepaired P es d) in *.
   set (d2 := mkdisk (d_files d1) (d_cur d1) (d_next d1) (store_snap s (store_hs h (d_meta d1)))).
